@@ -75,7 +75,7 @@ func genPar(r *hx.Rand) *parCase {
 			kind := r.Intn(4)
 			h, gh := genNegHeader(r, kind)
 			o, gok := genOffers(r, kind)
-			pw.Calls = append(pw.Calls, negCall{kind, h, o, gh && gok})
+			pw.Calls = append(pw.Calls, negCall{kind, h, o, gh && gok, 0})
 		}
 		pw.Format = hex.EncodeToString([]byte(hx.Pick(r, plain) + "%s" + hx.Pick(r, plain)))
 		pw.Val = hex.EncodeToString([]byte(hx.Pick(r, fmtStrings)))
